@@ -141,20 +141,27 @@ func checkOptionConstructors(r *Run, prog *Program, pfx string) {
 		}
 		dupField[row.field] = row.ctor
 		ctor := prog.BexprSSA.Func(row.ctor)
-		if ctor == nil || len(ctor.AnonFuncs) != 1 {
-			r.Check(pfx+".constructor", row.ctor, "options.go", false, "constructor "+row.ctor+" (returning one closure) not found")
+		if ctor == nil {
+			r.Check(pfx+".constructor", row.ctor, "options.go", false, "constructor "+row.ctor+" not found")
 			continue
 		}
-		cl := ctor.AnonFuncs[0]
+		cl := ctor
 		var probs []string
-		paths := optionClosureStores(prog, cl)
+		paths := optionEffect(prog, ctor)
 		if len(paths) != 1 {
 			probs = append(probs, "the option is applied conditionally")
 		}
 		for _, op := range paths {
+			if op.opaque {
+				probs = append(probs, "the function value the constructor returns cannot be followed")
+				continue
+			}
 			nst := 0
 			for _, st := range op.stores {
 				if st.field == "" {
+					if _, _, isLocal := localPath(st.addr); isLocal {
+						continue
+					}
 					probs = append(probs, "stores somewhere other than a field of its *options argument")
 					continue
 				}
@@ -162,12 +169,10 @@ func checkOptionConstructors(r *Run, prog *Program, pfx string) {
 				if st.field != row.field {
 					probs = append(probs, "writes option field "+st.field+" (its own field is "+row.field+")")
 				}
-				// the value: the captured parameter (or its address), or for the bindings an append to the same field
+				// the value: the constructor's own parameter (or the address of a copy of it), or for the bindings an append of
+				// one new binding to the same field
 				v := st.val
-				okV := v.K == sFree || (v.K == sLoad && v.A.K == sFree) || (v.K == sFresh && false)
-				if !okV && v.K == sFree {
-					okV = true
-				}
+				okV := ownParameter(op.sm.St, v, 0)
 				if !okV && row.ctor == "WithLocalVariable" {
 					if base, parts := appendChain(op.sm.St, v); len(parts) == 1 && base != nil && base.K == sLoad && base.A.Key() == st.addr.Key() {
 						okV = true
@@ -209,18 +214,42 @@ func checkOptionConstructors(r *Run, prog *Program, pfx string) {
 }
 
 func checkGetOpts(r *Run, prog *Program, a *Anchors, pfx string) {
-	// defaults
+	// the defaults: what getOpts yields when no option is given (a struct built by a helper, or a package-level variable that
+	// is only ever read), decided on the option-free path of getOpts with everything interpreted in place
 	gdo := optRoles(prog).getDefault
-	if gdo == nil {
-		r.Fail("unresolved-anchor", pfx+".defaults", "getDefaultOptions", "options.go", "not found")
-		return
+	var defaults *Sym
+	{
+		ps0 := NewPathSim(prog)
+		ps0.maxVisits = 1
+		ps0.Inline = func(c *ssa.Function) bool { return prog.InModule(c) && !recursive(prog, c) }
+		ps0.Seed = func(st *pstate) {
+			st.eqc[(&Sym{K: sLen, A: paramSym(a.GetOpts.Params[0])}).Key()] = "const(0)"
+		}
+		for _, sm := range ps0.Run(a.GetOpts) {
+			if sm.Ret == nil || len(sm.Results) != 1 {
+				continue
+			}
+			applied := false
+			for _, ev := range sm.Events() {
+				if ev.Instr != nil && !ev.Inlined && ev.FnSym != nil {
+					if _, isB := ev.Instr.Common().Value.(*ssa.Builtin); !isB {
+						applied = true
+					}
+				}
+			}
+			if !applied && sm.Results[0].K == sStruct {
+				defaults = sm.Results[0]
+			}
+		}
 	}
-	ps := NewPathSim(prog)
-	sums := ps.Run(gdo)
-	ok := len(sums) == 1 && len(sums[0].Results) == 1 && sums[0].Results[0].K == sStruct
-	why := "getDefaultOptions is not a single struct literal"
+	pos := prog.pos(a.GetOpts.Pos())
+	if gdo != nil {
+		pos = prog.pos(gdo.Pos())
+	}
+	ok := defaults != nil
+	why := "the options in force when none is given cannot be reconstructed (not a struct literal / an initialise-once variable)"
 	if ok {
-		d := sums[0].Results[0]
+		d := defaults
 		// neutral values of the statement: tag name `bexpr`, budget 0, no hook, no unknown value, no bindings
 		for f, v := range d.F {
 			switch f {
@@ -233,7 +262,7 @@ func checkGetOpts(r *Run, prog *Program, a *Anchors, pfx string) {
 					ok, why = false, "default budget is "+v.Key()+", expected 0 (unlimited)"
 				}
 			default:
-				if !v.IsNil() {
+				if !v.IsNil() && !(v.K == sStruct && v.A == nil && len(v.F) == 0) {
 					ok, why = false, "default of "+f+" is "+v.Key()+", expected nil"
 				}
 			}
@@ -242,14 +271,15 @@ func checkGetOpts(r *Run, prog *Program, a *Anchors, pfx string) {
 			ok, why = false, "the default options do not set the tag name"
 		}
 	}
-	r.Check(pfx+".defaults", "getDefaultOptions", prog.pos(gdo.Pos()), ok, why)
+	r.Check(pfx+".defaults", "getDefaultOptions", pos, ok, why)
 	// getOpts: defaults, then every non-nil option in slice order, applied to the same struct — decided on the paths of
 	// getOpts (helpers it is split into interpreted in place), three loop visits
 	fn := a.GetOpts
 	pOpt := paramSym(fn.Params[0])
 	psF := NewPathSim(prog)
 	psF.maxVisits = 3
-	psF.Inline = func(c *ssa.Function) bool { return prog.InModule(c) && c != gdo && !recursive(prog, c) }
+	psF.Inline = func(c *ssa.Function) bool { return prog.InModule(c) && !recursive(prog, c) }
+	isDefaults := func(d *Sym) bool { return d != nil && defaults != nil && d.Key() == defaults.Key() }
 	okLoop, okBase, okCall, okRet := true, true, true, true
 	maxCalls, nPaths := 0, 0
 	why2 := ""
@@ -303,7 +333,7 @@ func checkGetOpts(r *Run, prog *Program, a *Anchors, pfx string) {
 				d := ev.Deref[0]
 				if d == nil {
 					okBase, why2 = false, "the struct the options are applied to is not tracked"
-				} else if cf, _ := calleeOfSym(d); cf != gdo {
+				} else if !isDefaults(d) {
 					okBase, why2 = false, "the struct the options are applied to is not initialised with the defaults: "+shortKey(d)
 				}
 			} else if target.Key() != ev.Args[0].Key() {
@@ -320,7 +350,7 @@ func checkGetOpts(r *Run, prog *Program, a *Anchors, pfx string) {
 				okRet, why2 = false, "the result is not the struct the options were applied to: "+shortKey(res)
 			}
 		default:
-			if cf, _ := calleeOfSym(res); cf != gdo {
+			if !isDefaults(res) {
 				okBase, why2 = false, "without options the result is not the defaults: "+shortKey(res)
 			}
 		}
